@@ -26,18 +26,31 @@ def silence():
     setLogLevel(60)
 
 
+def _load_double(name):
+    """Register one double package in sys.modules without putting harness/doubles on sys.path
+    (that directory also holds an mpi4py double which must stay invisible here: taurex.mpi would use it)."""
+    import importlib.util
+    if name in sys.modules:
+        return sys.modules[name]
+    path = os.path.join(DOUBLES, name)
+    spec = importlib.util.spec_from_file_location(name, os.path.join(path, '__init__.py'),
+                                                  submodule_search_locations=[path])
+    mod = importlib.util.module_from_spec(spec)
+    sys.modules[name] = mod
+    spec.loader.exec_module(mod)
+    return mod
+
+
 def load_optimizers():
     silence()
-    if DOUBLES not in sys.path:
-        sys.path.insert(0, DOUBLES)
-    import pymultinest
-    import pypolychord
+    pymultinest = _load_double('pymultinest')
+    pypolychord = _load_double('pypolychord')
     if not pymultinest.__file__.startswith(DOUBLES) or not pypolychord.__file__.startswith(DOUBLES):
         raise Machinery('expected the recording doubles of pymultinest/pypolychord, found real packages')
     import taurex.optimizer as O
     for n in ('NestleOptimizer', 'MultiNestOptimizer', 'PolyChordOptimizer'):
         if not hasattr(O, n):
-            raise Machinery('taurex.optimizer was imported before the doubles were on sys.path (%s missing)' % n)
+            raise Machinery('taurex.optimizer was imported before the doubles were registered (%s missing)' % n)
     return O.NestleOptimizer, O.MultiNestOptimizer, O.PolyChordOptimizer
 
 
